@@ -249,6 +249,21 @@ func xrun(args []string) error {
 				w := wl.Workload{ID: fmt.Sprintf("g2pbig%d-%d", *seed, k), Cfg: wl.Cfg{Chunked: chunked, ChunkSize: 1 << 20, CRC: true}, Calls: g.BulkCalls(1500)}
 				wls = append(wls, w)
 			}
+			// one recording with single fields above 16 MiB (a message in the middle of its chunk, an attachment): whatever block
+			// size a reader fetches large fields in, the records after them are still there and the CRCs still match
+			{
+				huge := make([]byte, 17<<20+12345)
+				g.R.Read(huge[:1<<20])
+				copy(huge[9<<20:], huge[:1<<20])
+				small := func(i int) wl.Call {
+					return wl.Call{Op: "message", Ch: 1, Seq: uint32(i), Log: uint64(10 + i), Pub: uint64(i), Data: []byte{byte(i), 2, 3}}
+				}
+				w := wl.Workload{ID: fmt.Sprintf("g2phuge%d", *seed), Cfg: wl.Cfg{Chunked: true, ChunkSize: 64 << 20, CRC: true}, Calls: []wl.Call{
+					{Op: "header", Profile: []byte("huge")}, {Op: "channel", ID: 1, Topic: []byte("/t"), Menc: []byte("m")},
+					small(1), {Op: "message", Ch: 1, Seq: 2, Log: 12, Pub: 2, Data: huge}, small(3), small(4),
+					{Op: "attachment", Log: 5, Name: []byte("big"), Media: []byte("m"), Data: huge[:17<<20+1]}, small(5), {Op: "close"}}}
+				wls = append(wls, w)
+			}
 		}
 		type job struct {
 			ID      string `json:"id"`
